@@ -1757,34 +1757,40 @@ func (t *tScreen) collectEventsFromInput(buf *bytes.Buffer, expire bool) []Event
 			partials++
 		}
 
-		if part, comp := t.parseFocus(buf, &res); comp {
-			continue
-		} else if part {
-			partials++
-		}
-
-		// Only parse mouse records if this term claims to have
-		// mouse support
-
-		if t.ti.Mouse != "" {
-			if part, comp := t.parseXtermMouse(buf, &res); comp {
+		// While the input may still turn into a longer key sequence
+		// (e.g. rxvt's Ctrl-Up "\x1b[Oa" after "\x1b[O" has arrived),
+		// do not let a shorter report (focus "\x1b[O") claim the bytes;
+		// wait for more data or for the escape timeout instead.
+		if partials == 0 || expire {
+			if part, comp := t.parseFocus(buf, &res); comp {
 				continue
 			} else if part {
 				partials++
 			}
 
-			if part, comp := t.parseSgrMouse(buf, &res); comp {
-				continue
-			} else if part {
-				partials++
-			}
-		}
+			// Only parse mouse records if this term claims to have
+			// mouse support
 
-		if t.setClipboard != "" {
-			if part, comp := t.parseClipboard(buf, &res); comp {
-				continue
-			} else if part {
-				partials++
+			if t.ti.Mouse != "" {
+				if part, comp := t.parseXtermMouse(buf, &res); comp {
+					continue
+				} else if part {
+					partials++
+				}
+
+				if part, comp := t.parseSgrMouse(buf, &res); comp {
+					continue
+				} else if part {
+					partials++
+				}
+			}
+
+			if t.setClipboard != "" {
+				if part, comp := t.parseClipboard(buf, &res); comp {
+					continue
+				} else if part {
+					partials++
+				}
 			}
 		}
 
